@@ -2,7 +2,8 @@
    decidable obligation over the table REGENERATED from the source on every run). *)
 From Boltons Require Import Lib.Prelude Lib.C03_Syntax Lib.C03_Conc Model.C03_Model
      Proofs.C03_Serial Proofs.C03_Covered Proofs.C03_Main Proofs.C03_Link1 Proofs.C03_Link2 Proofs.C03_Link4 Proofs.C03_Link3
-     Spec.C03_Spec Proofs.C03_SpecLink Proofs.C03_SpecLink2 Proofs.C03_SpecLink3 Gen.C03_Gen.
+     Spec.C03_Spec Proofs.C03_SpecLink Proofs.C03_SpecLink2 Proofs.C03_SpecLink3
+     Proofs.C03_Complete Proofs.C03_FinalOk Proofs.C03_Probe Proofs.C03_Transfer Check.C03_Check Gen.C03_Gen.
 
 (* (T) obligation over regenerated data: in the CURRENT source, self._lock is a
    threading.RLock and every statement of every C03 method of LRI and LRU that touches the
@@ -61,10 +62,10 @@ Theorem C03_unlocked_refuted :
 Proof. exact unlocked_refuted. Qed.
 Print Assumptions C03_unlocked_refuted.
 
-(* nor is re-entrancy: with the current method bodies but a plain Lock, a single thread
+(* nor is re-entrancy: with method bodies locked as in tb_ref but a plain Lock, a single thread
    running setdefault on a missing key can never finish (it waits for itself) *)
 Theorem C03_plain_lock_refuted :
-  let tb := tb_plain_lock gen_table in
+  let tb := tb_plain_lock tb_ref in
   let s := conc_run tb cfg1 progs_setdefault shared_init (repeat 0 200) in
   t_done (m_thr s 0) = [] /\ step sem ssem (compile_l tb cfg1) (reentrant tb) 0 s = None.
 Proof. vm_compute. split; reflexivity. Qed.
@@ -78,7 +79,7 @@ Print Assumptions C03_plain_lock_refuted.
 Definition tb_unlocked_readers : lock_table :=
   mkTable CtorRLock
     (filter (fun g => negb (meth_eqb (g_meth g) MLen || meth_eqb (g_meth g) MContains))
-            (t_methods gen_table)).
+            (t_methods tb_ref)).
 Definition rd_cfg : config := mkConfig LRI 2 None.
 Definition rd_sh0 : shared := run_ops tb_unlocked_readers rd_cfg shared_init [SetItem 0 1; SetItem 1 2].
 Definition rd_progs : nat -> list op :=
@@ -178,7 +179,7 @@ Definition ex2_progs : nat -> list op :=
            end.
 Example C03_link_inhabited :
   stands_for (mkConfig LRU 2 None) shared_init Boltons.Model.C02_Model.empty_cache
-  /\ (let s := conc_run gen_table (mkConfig LRU 2 None) ex2_progs shared_init
+  /\ (let s := conc_run tb_ref (mkConfig LRU 2 None) ex2_progs shared_init
                          (repeat 0 9 ++ repeat 1 30 ++ repeat 0 40 ++ repeat 1 60 ++ repeat 0 80 ++ repeat 1 80) in
        t_todo (m_thr s 0) = [] /\ t_todo (m_thr s 1) = [] /\ t_cur (m_thr s 0) = None /\ t_cur (m_thr s 1) = None
        /\ t_done (m_thr s 1) = [RNone; RExn KeyError; RNat 2; RItems [(2, 12); (1, 11)]]).
@@ -218,6 +219,40 @@ Theorem C03_step_accepted_by_own_spec :
 Proof. exact op_accepted_by_c03_spec. Qed.
 Print Assumptions C03_step_accepted_by_own_spec.
 
+(* ---- `agree` transfers to `holds` -----------------------------------------------------------------
+   What the check computes per run: agree = the model (Model/C03_Model.v, run serially in the observed
+   lock order) gives exactly the implementation's observation; holds = the implementation's
+   observation satisfies Spec.spec_holds (an interleaving accepted by the reference cache exists --
+   searched by find_serial -- whose final state has the observed items, len and eviction probe).
+   For every well-formed case (max_size >= 1, `==` literals with distinct keys, key tokens < 100 as
+   the harness generates them): every outcome the model produces satisfies spec_holds -- for EVERY
+   lock order -- hence agree on a run implies holds on that run. *)
+Theorem C03_model_outcome_satisfies_spec :
+  forall tb (c : c03_case) order o,
+    wf_case c -> model_outcome tb c order = Some o ->
+    spec_holds (case_rcfg c) (ca_init c) (ca_progs c) o = true.
+Proof. exact model_outcome_holds. Qed.
+Print Assumptions C03_model_outcome_satisfies_spec.
+
+Theorem C03_agree_implies_holds :
+  forall (c : c03_case) (r : c03_run), wf_case c -> run_agree c r = true -> run_holds c r = true.
+Proof. exact agree_implies_holds. Qed.
+Print Assumptions C03_agree_implies_holds.
+
+(* the eviction probe of a state that stands for a C02 state shows its ring, oldest first *)
+Theorem C03_probe_shows_eviction_order :
+  forall tb cf s m, 1 <= cf_max cf -> stands_for cf s m -> small (Boltons.Model.C02_Model.ring m) ->
+    probe tb cf s = (expected_probe (rc_of cf) (Boltons.Model.C02_Model.ring m), cf_max cf).
+Proof. exact probe_correct. Qed.
+Print Assumptions C03_probe_shows_eviction_order.
+
+(* the interleaving search is complete *)
+Theorem C03_search_complete :
+  forall c final s ths, accepted c final s ths ->
+    forall fuel, size ths <= fuel -> find_serial fuel c s ths final <> None.
+Proof. exact find_serial_complete. Qed.
+Print Assumptions C03_search_complete.
+
 (* ---- the statistics counters are NOT covered (and the property does not name them) -----------
    LRI.get() increments soft_miss_count outside the lock (modelled as such: a read and a write of
    the statistics component after the Release).  Two threads, one c.get(missing, d) each; thread 0 is
@@ -229,7 +264,7 @@ Definition cnt_progs : nat -> list op :=
 Definition cnt_sched : list nat := repeat 0 8 ++ repeat 1 40 ++ repeat 0 40.
 
 Theorem C03_soft_miss_counter_lost_update :
-  let s := conc_run gen_table (mkConfig LRI 2 None) cnt_progs shared_init cnt_sched in
+  let s := conc_run tb_ref (mkConfig LRI 2 None) cnt_progs shared_init cnt_sched in
   t_done (m_thr s 0) = [RVal 70] /\ t_done (m_thr s 1) = [RVal 80] /\
   t_todo (m_thr s 0) = [] /\ t_todo (m_thr s 1) = [] /\
   n_miss (m_st s) = 2 /\ n_soft (m_st s) = 1.
@@ -246,16 +281,16 @@ Definition ex_progs : nat -> list op :=
            | _ => []
            end.
 Definition ex_cfg : config := mkConfig LRU 2 None.
-Definition ex_sh0 : shared := run_ops gen_table ex_cfg shared_init [SetItem 0 10; SetItem 1 11].
+Definition ex_sh0 : shared := run_ops tb_ref ex_cfg shared_init [SetItem 0 10; SetItem 1 11].
 Definition ex_sched : list nat :=
   repeat 0 7 ++ repeat 1 5 ++ repeat 0 15 ++ repeat 1 25 ++ repeat 0 60 ++ repeat 1 60 ++ repeat 0 60.
 
 Example C03_example_run :
-  let s := conc_run gen_table ex_cfg ex_progs ex_sh0 ex_sched in
+  let s := conc_run tb_ref ex_cfg ex_progs ex_sh0 ex_sched in
   t_done (m_thr s 0) = [RVal 10; RNone] /\
   t_done (m_thr s 1) = [RNone; RItems [(0, 10)]] /\
   t_todo (m_thr s 0) = [] /\ t_todo (m_thr s 1) = [] /\
   t_cur (m_thr s 0) = None /\ t_cur (m_thr s 1) = None /\
   view_items (m_sh s) = [(0, 10); (2, 12)] /\
-  m_lock (conc_run gen_table ex_cfg ex_progs ex_sh0 (repeat 0 7 ++ repeat 1 5)) = Some (0, 1).
+  m_lock (conc_run tb_ref ex_cfg ex_progs ex_sh0 (repeat 0 7 ++ repeat 1 5)) = Some (0, 1).
 Proof. vm_compute. repeat split; reflexivity. Qed.
